@@ -1,9 +1,10 @@
 use std::{collections::HashMap, fmt::Debug};
 
 use common_lang_types::{SelectableName, WithEmbeddedLocation};
+use graphql_lang_types::NameValuePair;
 use isograph_lang_types::{
-    ArgumentKeyAndValue, ConstantValue, NonConstantValue, ScalarSelectionDirectiveSet,
-    SelectionFieldArgument, SelectionType, VariableDeclaration, VariableNameWrapper,
+    ArgumentKeyAndValue, NonConstantValue, ScalarSelectionDirectiveSet, SelectionFieldArgument,
+    SelectionType, VariableDeclaration, VariableNameWrapper,
 };
 use prelude::Postfix;
 
@@ -63,20 +64,22 @@ impl VariableContext {
                     }
                 };
 
-                let child_value =
+                // The argument may be a variable, or contain variables (in an object or a
+                // list). Each of them is replaced by the parent context's value for it.
+                let child_value = replace_variables(
                     // TODO avoid cloning
-                    match ConstantValue::try_from(matching_arg.item.clone().value.item) {
-                        Ok(_) => matching_arg.item.value.item.clone(),
-                        Err(e) => self
-                            .0
-                            .get(&e)
+                    matching_arg.item.value.item.clone(),
+                    &|variable_name| {
+                        self.0
+                            .get(&variable_name)
                             .expect(
                                 "Parent context has missing variable. \
                                 This should have been validated already. \
                                 This is indicative of a bug in Isograph.",
                             )
-                            .clone(),
-                    };
+                            .clone()
+                    },
+                );
 
                 (variable_name, child_value)
             })
@@ -140,33 +143,53 @@ impl<TCompilationProfile: CompilationProfile> FlattenedDataModelSelectable<TComp
     }
 }
 
+/// Replaces every variable in `value`, including those nested in objects and lists.
+fn replace_variables(
+    value: NonConstantValue,
+    replacement: &impl Fn(VariableNameWrapper) -> NonConstantValue,
+) -> NonConstantValue {
+    match value {
+        NonConstantValue::Variable(variable_name) => replacement(variable_name),
+        NonConstantValue::List(items) => NonConstantValue::List(
+            items
+                .into_iter()
+                .map(|item| item.map(|value| replace_variables(value, replacement)))
+                .collect(),
+        ),
+        NonConstantValue::Object(entries) => NonConstantValue::Object(
+            entries
+                .into_iter()
+                .map(|entry| NameValuePair {
+                    name: entry.name,
+                    value: entry
+                        .value
+                        .map(|value| replace_variables(value, replacement)),
+                })
+                .collect(),
+        ),
+        constant => constant,
+    }
+}
+
 fn transform_selection_field_argument_into_merged_arg_with_child_context(
     arg: ArgumentKeyAndValue,
     variable_context: &VariableContext,
 ) -> ArgumentKeyAndValue {
-    if let NonConstantValue::Variable(used_variable_name) = arg.value {
-        // Look up the variable in the variables in context, and use that value
+    ArgumentKeyAndValue {
+        key: arg.key,
+        // Look up the variables in the variables in context, and use those values
         //
         // This will give us the *actual value* that we need for the merged selection set.
-        let value = variable_context.0.get(&used_variable_name);
-
-        return match value {
-            Some(value) => ArgumentKeyAndValue {
-                key: arg.key,
-                value: value.clone(),
-            },
-            None => {
+        value: replace_variables(arg.value, &|used_variable_name| {
+            variable_context
+                .0
+                .get(&used_variable_name)
+                .cloned()
                 // There is no variable. The value is missing! It had better be optional.
                 // TODO we should validate that
-                ArgumentKeyAndValue {
-                    key: arg.key,
-                    value: NonConstantValue::Null,
-                }
-            }
-        };
+                .unwrap_or(NonConstantValue::Null)
+        }),
     }
-
-    arg
 }
 
 pub fn transform_arguments_with_child_context(
